@@ -172,7 +172,7 @@ def w_from(kind: int, layout: int, frm: int, parent_removed: bool, noise: int, n
     pre: 0 <= kind < 6 and 0 <= layout < 4 and 0 <= frm < 5 and 0 <= noise < 4 and 0 <= name < 3 and 0 <= sort < 3
     post: _ == ''
     """
-    return _case(rt.sel(kind, 6), [0, 2, 5][name], rt.sel(layout, 4), [0, 2, 3][sort], rt.sel(frm, 5),
+    return _case(rt.sel(kind, 6), rt.of([0, 2, 5], name), rt.sel(layout, 4), rt.of([0, 2, 3], sort), rt.sel(frm, 5),
                  rt.selb(parent_removed), rt.sel(noise, 4))
 
 
@@ -189,7 +189,7 @@ def w_full(kind: int, name: int, layout: int, sort: int, frm: int, parent_remove
 # ------------------------------------------------------------------ K: path half
 def k_parent_path(parent: str, volume: str) -> str:
     """
-    pre: len(parent) <= 5 and len(volume) <= 4
+    pre: len(parent) <= 4 and len(volume) <= 3
     pre: parent.startswith('/') and volume.startswith('/')
     pre: '//' not in parent and '//' not in volume
     pre: not (len(volume) > 1 and volume.endswith('/')) and not (len(parent) > 1 and parent.endswith('/'))
@@ -218,9 +218,9 @@ def k_parent_path(parent: str, volume: str) -> str:
 def obligations(tier):
     enc = K.PUT_FUNCS + K.RESTORE_FUNCS
     obs = [
-        CH('K_parent_path_roundtrip', MOD, 'k_parent_path', timeout=120, engine='K', regime='traced',
+        CH('K_parent_path_roundtrip', MOD, 'k_parent_path', timeout=400, engine='K', regime='traced',
            encodes=['OriginalLocation._calc_parent_path', 'posixpath.join (read side of parse_original_location)'],
-           bounds='parent: absolute normalised str len<=5; volume: absolute normalised str len<=4'),
+           bounds='parent: absolute normalised str len<=4; volume: absolute normalised str len<=3'),
         CH('W_kind_name_layout_sort', MOD, 'w_main', timeout=900, partitions=list(range(6)), engine='W',
            regime='selector', encodes=enc, stubs=K.STUBS,
            bounds='6 kinds x 16 names x 4 layouts x 4 sort modes; restore from the original directory'),
